@@ -8,11 +8,14 @@
 EXTENDS Integers, Sequences, TLC, Json
 CONSTANTS Depth, Shift, Win0, Mms, Side     \* Side: "client" | "listener"
 
-Alphabet == {"SendS", "SendM", "SendL", "SendL2", "Flow0", "Flow1", "Flow2", "Flow3", "Flow2Lag", "Flow2Unset", "In", "InBig"}
+\* FlowPend (listener side, once per script): the peer attaches a further link and, before the application has accepted it, sends a flow that
+\* names its handle and reopens the session window -- the session-level part of that flow counts although the link is not there yet
+Alphabet == {"SendS", "SendM", "SendL", "SendL2", "Flow0", "Flow1", "Flow2", "Flow3", "Flow2Lag", "Flow2Unset", "In", "InBig"} \cup (IF Side = "listener" THEN {"FlowPend"} ELSE {})
 VARIABLES script, nsend, nin
 vars == <<script, nsend, nin>>
 Init == script = <<>> /\ nsend = 0 /\ nin = 0
 Step(e) == /\ Len(script) < Depth /\ script' = Append(script, e)
+           /\ (e = "FlowPend" => \A i \in DOMAIN script : script[i] # "FlowPend")
            /\ nsend' = IF e \in {"SendS", "SendM", "SendL", "SendL2"} THEN nsend + 1 ELSE nsend
            /\ nin' = IF e \in {"In", "InBig"} THEN nin + 1 ELSE nin
 Next == \E e \in Alphabet : Step(e)
@@ -44,6 +47,8 @@ Body(sc, i, ns, ni) ==
     [] e = "SendL" -> <<[e |-> "ASend", l |-> "L1", m |-> ns + 1, len |-> 330]>> \o Body(sc, i + 1, ns + 1, ni)
     [] e = "SendL2" -> <<[e |-> "ASend", l |-> "L1", m |-> ns + 1, len |-> 200]>> \o Body(sc, i + 1, ns + 1, ni)
     [] e \in {"Flow0", "Flow1", "Flow2", "Flow3"} -> <<PFlow([seen |-> 0], CASE e = "Flow0" -> 0 [] e = "Flow1" -> 1 [] e = "Flow2" -> 2 [] OTHER -> 3)>> \o Body(sc, i + 1, ns, ni)
+    [] e = "FlowPend" -> <<[e |-> "PFrame", perf |-> "attach", ch |-> 3, nosettle |-> TRUE, f |-> [name |-> "L3", h |-> 7, role |-> "r", snd |-> 1, rcv |-> 0]],
+                           [e |-> "PFrame", perf |-> "flow", ch |-> 3, ech |-> 0, f |-> [nii |-> [seen |-> 0], iw |-> 3, noi |-> 7, ow |-> 100, h |-> 7, dc |-> 0, lc |-> 10]]>> \o Body(sc, i + 1, ns, ni)
     [] e = "Flow2Lag" -> <<PFlow([seen |-> 1], 2)>> \o Body(sc, i + 1, ns, ni)
     [] e = "Flow2Unset" -> <<PFlow(-1, 2)>> \o Body(sc, i + 1, ns, ni)
     [] e = "In" -> <<[e |-> "PFrame", perf |-> "transfer", ch |-> 3, f |-> [h |-> 6, did |-> ni, tagn |-> 1, tag |-> <<ni>>, fmt |-> 0, settled |-> "t", more |-> FALSE],
